@@ -9,12 +9,50 @@ LEAN_MODULES = ['VotelibProofs.Props.C11']
 GEN_MODULES = ['Divisor', 'Quota']
 REQUIRED = ['getNBest_scale', 'plurality_scale', 'highestAverages_scale', 'sumVals_scale', 'hare_homogeneous',
             'hagenbach_bischoff_homogeneous', 'imperiali_homogeneous', 'quotaSelector_scale', 'near_tie_separated',
-            'equal_rationals_tied']
+            'equal_rationals_tied',
+            'relativeThreshold_scale', 'quotaDistributor_scale', 'largestRemainder_scale',
+            'rankedToPositional_linear', 'approvalToSimple_linear', 'rankedToCondorcet_linear', 'positionalRule_scale',
+            'approvalRule_scale']
 # families whose scale invariance is proved in Lean (Props/C11.lean); the rest is covered by the oracle only
-PROVED_FAMILIES = ['plurality', 'ha_d_hondt', 'ha_sainte_lague', 'ha_imperiali', 'ha_danish', 'ha_macau', 'quota_selector_hare']
+PROVED_FAMILIES = ['plurality', 'ha_d_hondt', 'ha_sainte_lague', 'ha_imperiali', 'ha_danish', 'ha_macau', 'quota_selector_hare',
+                   'rel_threshold_5pc', 'rel_threshold_third',
+                   'lr_hare', 'lr_hagenbach_bischoff', 'lr_imperiali', 'qd_hare',
+                   'positional_borda', 'positional_borda0', 'positional_dowdall', 'positional_geometric',
+                   'positional_modified_borda', 'positional_fixed_top3', 'approval_av', 'approval_sav']
 MULTIPLIERS = [2, 3, 7, 10 ** 6, 10 ** 25 + 7]
 SMALL_MULTIPLIERS = [2, 3, 7]
 NAMES = Names(prefix='cand')
+REL_THRESHOLDS = {'rel_threshold_5pc': ('1/20', True), 'rel_threshold_third': ('1/3', False)}   # as built in families.py
+DIST_FAMILIES = ('ha_', 'lr_', 'qd_')
+SCORERS = {'positional_borda': {'s': 'Borda', 'base': 1}, 'positional_borda0': {'s': 'Borda', 'base': 0},
+           'positional_dowdall': {'s': 'Dowdall'}, 'positional_geometric': {'s': 'Geometric', 'base': 2},
+           'positional_modified_borda': {'s': 'ModifiedBorda'}, 'positional_fixed_top3': {'s': 'FixedTop', 'top': 3}}   # families.py
+
+
+def enc_ranked(prof):
+    """families.py ranked profile -> the C13 driver encoding (shared rank = {"set": [...]})"""
+    return [[[({'set': it} if isinstance(it, list) else it) for it in b], w] for b, w in prof]
+
+
+def enc_approval(prof):
+    return [[{'set': b}, w] for b, w in prof]
+
+
+def canon_runs(sel, keyvals):
+    """canonical form of a selection given the value each candidate was ranked by: runs of individually listed winners of
+    equal value are sorted (their order is the iteration order of a Python set / dict built from one)"""
+    out, i = [], 0
+    while i < len(sel):
+        if isinstance(sel[i], dict):
+            out.append(canon(sel[i]))
+            i += 1
+            continue
+        j = i
+        while j < len(sel) and not isinstance(sel[j], dict) and keyvals.get(sel[j]) == keyvals.get(sel[i]):
+            j += 1
+        out.append(sorted(sel[i:j]))
+        i = j
+    return out
 _FAMS = None
 
 
@@ -154,6 +192,18 @@ def model_line(case):
             return {'op': 'ha', 'divisor': f[3:], 'first_coef': None, 'votes': prof, 'n': case['n'], 'prev': [], 'max': []}
         if f == 'quota_selector_hare':
             return {'op': 'quota_selector', 'n': case['n'], 'votes': prof, 'quota': 'hare', 'accept_equal': True, 'on_more': 'select'}
+        if f not in PROVED_FAMILIES:
+            return None
+        if f in REL_THRESHOLDS:
+            t, eq = REL_THRESHOLDS[f]
+            return {'op': 'rel_threshold', 'votes': prof, 'threshold': t, 'accept_equal': eq}
+        if f in SCORERS:
+            return {'op': 'c11_positional', 'scorer': SCORERS[f], 'votes': enc_ranked(prof), 'n': case['n']}
+        if f in ('approval_av', 'approval_sav'):
+            return {'op': 'c11_approval', 'split': f == 'approval_sav', 'votes': enc_approval(prof), 'n': case['n']}
+        if f.startswith('lr_') or f.startswith('qd_'):
+            return {'op': f[:2], 'quota': f[3:], 'accept_equal': True, 'on_overaward': 'error', 'n': case['n'], 'votes': prof,
+                    'prev': [], 'max': []}
         return None
     if case['op'] == 'near_tie':
         v = Fraction(case['v'])
@@ -167,7 +217,15 @@ def model_line(case):
 
 def compare(case, iobs, mobs):
     got = iobs['scaled'] if case['op'] == 'scale' else iobs
-    if case['op'] == 'scale' and case['family'].startswith('ha_'):
+    if isinstance(mobs, dict) and 'sel' in mobs and 'keys' in mobs:
+        if isinstance(got, dict):
+            return f'impl={json.dumps(got)} model={json.dumps(mobs["sel"])}'
+        kv = {c: Fraction(v) for c, v in mobs['keys']}
+        a, b = canon_runs(got, kv), canon_runs(mobs['sel'], kv)
+        if a != b:
+            return f'impl={json.dumps(a)} model={json.dumps(b)} (runs of equal value sorted)'
+        return None
+    if case['op'] == 'scale' and case['family'].startswith(DIST_FAMILIES):
         a, b = canon(got), canon_dist(mobs)
     else:
         a, b = canon(got), canon(mobs)
